@@ -27,11 +27,16 @@ def assist(project, source, position, filename=None, debug=False):
     line = source.lines[ln - 1][:col]
     prefix = re.search(r'\w*$', line).group()
     if line.lstrip().startswith('from ') and not re.search(r'\simport[\s(]', line):
-        iname = line.rpartition(' ')[2]
-        package, sep, prefix = iname.rpartition('.')
-        if (not package or package.startswith('.')) and sep:
-            package += '.'
-        return prefix, list_packages(project, package, filename)
+        try:
+            # the continuation line of `raise ... from` / `yield from` parses
+            source.tree
+        except SyntaxError:
+            # a half-typed import
+            iname = line.rpartition(' ')[2]
+            package, sep, prefix = iname.rpartition('.')
+            if (not package or package.startswith('.')) and sep:
+                package += '.'
+            return prefix, list_packages(project, package, filename)
 
     debug and print_dump(source.tree)
 
